@@ -72,6 +72,26 @@ def run(ctx, rep):
     except Exception as e:
         import traceback; traceback.print_exc()
         rep.fail("R14.5", "engine", "builder analysis crashed: %r" % (e,), status="undecided")
+    # R14.6 sibling agreement inside a glyph subset: every font constant of one module (ascii, iso_8859_N, jis_x0201)
+    # designates glyphs through the same mapping — the glyph images of a subset are all laid out for that subset's
+    # character list, so a single constant that names another subset's mapping draws other characters' glyphs
+    import collections as _c
+    by_mod = _c.defaultdict(lambda: _c.defaultdict(list))
+    for f, v in fonts:
+        try:
+            d_ = font_fields(v)
+        except Exception:
+            continue
+        by_mod[f.path.split("::")[-2]][d_["mapping"]].append(f)
+    rep.floor("R14.6", "glyph subsets", len(by_mod), 12)
+    for mod, ms in sorted(by_mod.items()):
+        if len(ms) == 1:
+            rep.ok("R14.6", "subset-mapping:" + mod, detail={"fonts": sum(len(x) for x in ms.values())}, nontrivial=False)
+            continue
+        major = max(ms.items(), key=lambda kv: len(kv[1]))
+        odd = [f_ for k_, fl in ms.items() if k_ != major[0] for f_ in fl]
+        rep.fail("R14.6", "subset-mapping:" + mod, "%d fonts of subset %s use one glyph mapping, %s use another" % (len(major[1]), mod, ", ".join(f_.path.split("::")[-1] for f_ in odd[:3])),
+                 at=odd[0].span, fn=odd[0].path)
     n_map = set()
     for f, v in sorted(fonts, key=lambda x: x[0].path):
         key = f.path.replace("embedded_graphics::mono_font::", "")
